@@ -106,3 +106,40 @@ Proof.
   cbv zeta. repeat split; try reflexivity.
   unfold tcodes_distinct. cbn. repeat constructor; cbn; intuition discriminate.
 Qed.
+
+(* ---- DIEs and units (value_die::cmp, value_cu::cmp; model val/DieCmp.v) ---- *)
+From Dwgrep Require Import DieCmp DieCmpProofs.
+Import DieCmpM.
+
+(* a DIE equals itself; the comparison read the other way round is the opposite *)
+Theorem C09_die_refl : forall a, die_cmp a a = Eq.
+Proof. exact die_cmp_refl. Qed.
+Theorem C09_die_dual : forall a b, die_cmp b a = CompOpp (die_cmp a b).
+Proof. exact die_cmp_antisym. Qed.
+(* among cooked DIEs reached through the same number of imports: equal only when they are the same DIE
+   reached the same way, and <, ==, > each transitive (any chain length, any offsets) *)
+Theorem C09_die_equal_is_same : forall a b, cooked a = true -> cooked b = true -> depth a = depth b ->
+  die_cmp a b = Eq -> a = b.
+Proof. exact die_cmp_eq_same. Qed.
+Theorem C09_die_transitive : forall a b c r, cooked a = true -> cooked b = true -> cooked c = true ->
+  depth a = depth b -> depth b = depth c -> die_cmp a b = r -> die_cmp b c = r -> die_cmp a c = r.
+Proof. exact die_cmp_trans. Qed.
+(* the full statement (transitivity for all DIEs) is false of the model, as it is of the code: finding D32.
+   The witness is the triple the check reports on tests/dwz-partial2-1 (DIE 0x14 through the import at 0x30,
+   as a reference target, through the import at 0x9b). *)
+Theorem C09_die_eq_transitive_refuted : exists a b c,
+  die_cmp a b = Eq /\ die_cmp b c = Eq /\ die_cmp a c <> Eq.
+Proof. exists (via 48), plain, (via 155). destruct die_eq_not_transitive as [H1 [H2 H3]]. rewrite H3. repeat split; auto; discriminate. Qed.
+(* two units are equal only when they are the same unit of the same module *)
+Theorem C09_units_equal_is_same : forall a b, cu_cmp a b = Eq <-> a = b.
+Proof. exact cu_cmp_eq. Qed.
+Example C09_die_nonvacuous :
+  cooked (via 48) = true /\ cooked (via 155) = true /\ depth (via 48) = depth (via 155) /\ die_cmp (via 48) (via 155) = Lt.
+Proof. vm_compute. auto. Qed.
+
+Print Assumptions C09_die_refl.
+Print Assumptions C09_die_dual.
+Print Assumptions C09_die_equal_is_same.
+Print Assumptions C09_die_transitive.
+Print Assumptions C09_die_eq_transitive_refuted.
+Print Assumptions C09_units_equal_is_same.
